@@ -16,7 +16,7 @@ from dsim import values as V
 from dsim.worlds.arrays import Skip, dec_index, gen_label_index, gen_pos_index
 from dsim.standin.simfs import FS, Crash
 
-PATHS = ["/sim/f0.nc", "/sim/f1.nc", "/sim/f2.nc"]
+PATHS = ["f0.nc", "f1.nc", "f2.nc"]   # relative: every process runs in its own private scratch directory
 VARNAMES = ["va", "vb", "vc", "vd", "ve"]
 DIMS = ["x", "y", "z", "t"]
 META = ["units", "long_name", "scale", "tag", "note"]
